@@ -6,6 +6,7 @@ import NimaVerif.Drv.Cli
 import NimaVerif.Drv.Paths
 import NimaVerif.Drv.Value
 import NimaVerif.Drv.Cost
+import NimaVerif.Drv.Layout
 /-!
 Line-protocol driver: one request per line on stdin, one reply per line on stdout.
 Each topic has its own handler module `NimaVerif/Drv/<Topic>.lean` exporting
@@ -21,7 +22,8 @@ def handlers : List (SExp → Option SExp) := [
   Nima.Drv.Cli.handle,
   Nima.Drv.Paths.handle,
   Nima.Drv.Value.handle,
-  Nima.Drv.Cost.handle
+  Nima.Drv.Cost.handle,
+  Nima.Drv.Layout.handle
 ]
 
 def dispatch (req : SExp) : SExp :=
